@@ -192,6 +192,13 @@ pub trait Prop: Sync {
     fn fuzz_decoders(&self) -> Vec<&'static str> {
         vec![self.id()]
     }
+    /// Is "this case does not finish" itself a violation of the property (C03: never hangs)?  Then a
+    /// case the watchdog had to stop is re-run twice in a fresh process, and reported if neither
+    /// run ends within 90 s (thousands of times the cost of an ordinary case); otherwise a watchdog
+    /// stop is an infrastructure note (exit 2), never a verdict.
+    fn hang_is_violation(&self) -> bool {
+        false
+    }
     /// default wall-clock budget of the coverage-guided tier in the thorough tier (seconds)
     fn fuzz_default_secs(&self) -> u64 {
         240
@@ -1037,6 +1044,7 @@ fn run_workers(prop: &dyn Prop, a: &RunArgs, run_dir: &Path, nworkers: usize, su
     let mut ws: Vec<W> = (0..nworkers).map(|s| spawn(s, 0)).collect();
     let case_timeout = Duration::from_secs(if a.tier == Tier::Quick { 60 } else { 120 });
     let mut deaths = 0usize;
+    let (mut hangs_tried, mut hangs_confirmed) = (0usize, 0usize);
     while !ws.is_empty() {
         std::thread::sleep(Duration::from_millis(20));
         let mut i = 0;
@@ -1084,13 +1092,49 @@ fn run_workers(prop: &dyn Prop, a: &RunArgs, run_dir: &Path, nworkers: usize, su
                         let _ = w.child.kill();
                         let _ = w.child.wait();
                         let (batch, tape) = read_inflight(&w.inflight).unwrap_or((nbatches, vec![]));
-                        sup.infra_errors.push(format!(
-                            "watchdog: worker {} made no progress for {:?} in batch {} (tape of {} values saved in evidence notes)",
-                            w.shard,
-                            case_timeout,
-                            batch,
-                            tape.len()
-                        ));
+                        let mut confirmed_hang = false;
+                        if prop.hang_is_violation() && !tape.is_empty() {
+                            if hangs_confirmed > 0 {
+                                // (one confirmed case is reported; further ones are not re-run)
+                                confirmed_hang = true;
+                            } else if hangs_tried < 3 {
+                                hangs_tried += 1;
+                                let ids = prop.identities();
+                                let identity = ids[w.shard % ids.len()].clone();
+                                let f = run_dir.join(format!("hang-{}-{}.json", w.shard, batch));
+                                let _ = fs::write(&f, serde_json::to_string(&json!({"tape": tape_to_json(&tape), "identity": identity})).unwrap());
+                                let (c1, s1, t1) = crate::fuzzdrv::replay_file(&prop.id(), &f, Duration::from_secs(90));
+                                let t2 = t1 && crate::fuzzdrv::replay_file(&prop.id(), &f, Duration::from_secs(90)).2;
+                                if !t1 && !matches!(c1, Some(0) | Some(2)) {
+                                    // re-run in a fresh process (address space limited to 6 GB) the case ends in a
+                                    // failure of its own or kills the process: runaway allocation, abort
+                                    hangs_confirmed += 1;
+                                    confirmed_hang = true;
+                                    let sig = match c1 {
+                                        Some(1) => s1.lines().find_map(|l| l.strip_prefix("SIGNATURE ")).unwrap_or("replay-failed").to_string(),
+                                        other => format!("exit@{:?}:case-kills-the-process-when-re-run(6GB-address-space)", other),
+                                    };
+                                    let traits: Vec<String> = s1.lines().find_map(|l| l.strip_prefix("TRAITS ")).map(|l| l.split(',').filter(|x| !x.is_empty()).map(|x| x.to_string()).collect()).unwrap_or_default();
+                                    sup.failures.push(json!({"signature": sig, "message": format!("a worker made no progress for {:?} on this case; re-run in a fresh process it fails as the signature says", case_timeout),
+                                        "detail": {"replay_output": s1}, "traits": traits, "tape": tape_to_json(&tape), "identity": identity, "shard": w.shard, "batch": batch}));
+                                } else if t1 && t2 {
+                                    hangs_confirmed += 1;
+                                    confirmed_hang = true;
+                                    let detail = json!({"note": "the case is in the tape; `./check <id> --replay <this file>` re-runs it (it will not finish)"});
+                                    sup.failures.push(json!({"signature": "hang:case-does-not-finish-within-90s", "message": format!("a worker made no progress for {:?} on this case; re-run twice in a fresh process, it did not finish within 90 s either time", case_timeout),
+                                        "detail": detail, "traits": [], "tape": tape_to_json(&tape), "identity": identity, "shard": w.shard, "batch": batch}));
+                                }
+                            }
+                        }
+                        if !confirmed_hang {
+                            sup.infra_errors.push(format!(
+                                "watchdog: worker {} made no progress for {:?} in batch {} (tape of {} values saved in evidence notes)",
+                                w.shard,
+                                case_timeout,
+                                batch,
+                                tape.len()
+                            ));
+                        }
                         sup.extra.insert(format!("hang_tape_shard{}", w.shard), tape_to_json(&tape));
                         let shard = w.shard;
                         ws.swap_remove(i);
